@@ -454,6 +454,7 @@ func c05(c *Ctx) {
 	// ---- R6 the mocker-level Return/Returns hand the caller's values to the When
 	r.Floor("C05.R6", 4)
 	checkValuesForwarded(p, r, "C05.R6", map[string]bool{"Return": true, "Returns": true}, "results")
+	checkSequenceNotDropped(p, r, "C05.R6")
 
 	// ---- R4 feeding the right list
 	when := p.NamedType("", "When")
@@ -678,4 +679,79 @@ func checkValuesForwarded(p *Prog, r *Report, rule string, names map[string]bool
 			"the method can return without handing the caller's "+what+" to the When: the stub is created (and the function patched) but answers with something other than what was configured")
 	}
 	return n
+}
+
+// checkSequenceNotDropped: C05.R6 clause — a method of When that spreads its variadic values over Return/AndReturn gives up
+// without feeding anything only for the empty list: a return that has not passed a feeding call is entailed len(values) <= 0.
+func checkSequenceNotDropped(p *Prog, r *Report, rule string) {
+	when := p.NamedType("", "When")
+	if when == nil {
+		return
+	}
+	for _, f := range p.FuncsIn("") {
+		if f.Blocks == nil || f.Signature.Recv() == nil || !f.Signature.Variadic() || f.Object() == nil || !f.Object().Exported() {
+			continue
+		}
+		if pt, ok := f.Signature.Recv().Type().(*types.Pointer); !ok || pt.Elem() != types.Type(when) {
+			continue
+		}
+		vp := f.Params[len(f.Params)-1]
+		isVP := func(v ssa.Value) bool { return v == ssa.Value(vp) }
+		// feeding calls: calls of other When methods (or AddResult) with values taken out of the parameter
+		isFeed := func(j ssa.Instruction) bool {
+			ci, ok := j.(ssa.CallInstruction)
+			if !ok {
+				return false
+			}
+			cal := staticCallee(ci.Common())
+			if cal == nil || cal == f || relPkg(cal) != "" || cal.Signature.Recv() == nil {
+				return false
+			}
+			for _, a := range ci.Common().Args[1:] {
+				if dependsOn(a, isVP) {
+					return true
+				}
+			}
+			return false
+		}
+		spreads := false
+		eachInstr(f, func(i ssa.Instruction) {
+			if isFeed(i) {
+				// only methods that take the list apart element by element (index / range over it)
+				eachInstr(f, func(j ssa.Instruction) {
+					if ia, ok := j.(*ssa.IndexAddr); ok && resolveLocal(ia.X) == ssa.Value(vp) {
+						spreads = true
+					}
+				})
+			}
+		})
+		if !spreads {
+			continue
+		}
+		k := NewKeyer(f)
+		okAll := true
+		for _, ret := range returnsOf(f) {
+			if passedBefore(f, ret, isFeed, nil) {
+				continue
+			}
+			// a way out without feeding: loop exits after the last element are fine (the loop body fed), an early return is
+			// fine only for the empty list
+			m := NewDBM()
+			guardsToDBM(m, k, ret.Block())
+			empty := m.EntailsLE(Term{"len(" + k.Key(vp) + ")", 0}, Term{"", 0})
+			viaLoop := false
+			for _, b := range f.Blocks {
+				for _, pr := range b.Preds {
+					if b.Dominates(pr) && b.Dominates(ret.Block()) && b != ret.Block() {
+						viaLoop = true
+					}
+				}
+			}
+			if !empty && !viaLoop {
+				okAll = false
+			}
+		}
+		r.Check(okAll, rule, "values of "+shortName(f)+" are dropped only when there are none", p.Pos(f.Pos()), "an early return without feeding is entailed len(values) == 0",
+			"the method gives up without recording anything for a non-empty list (e.g. for a single value): Returns(v) configures nothing and the call panics with 'no suitable condition' or falls through to another stub")
+	}
 }
